@@ -81,3 +81,99 @@ def NoPanic {D} (T : Table D) (stranded : Bool) (join : D → D → Bool) : Prop
   ∀ x d y d' ok e, staticStep T stranded join x d ≠ .cand y d' ok true e
 
 end Compress
+
+/-! ## Node assembly (`build_node`, compression.rs 453-520) and the driver loop (523-566) -/
+namespace Compress
+open Walk (Dir rm)
+
+structure Node (D : Type) where
+  seq : Seq
+  exts : Exts
+  data : D
+deriving Repr
+
+/-- `Exts::from_single_dirs(left, right)`: `(right.val << 4) | (left.val & 0xf)` on `u8` -/
+def Exts.fromSingleDirs (l r : Exts) : Exts := ⟨((r.val <<< 4) % 256) ||| (l.val &&& 0xf)⟩
+
+/-- fold of the left path: `push_front(oriented.get(0))`, reduce the payload -/
+def leftFold {D} (T : Table D) (reduce : D → D → D) (path : List (Nat × Dir)) (seq0 : Seq) (d0 : D) : Option (Seq × D) :=
+  path.foldl (fun acc (p : Nat × Dir) =>
+    match acc, T[p.1]? with
+    | some (sq, dat), some e =>
+      let km := match p.2 with | .L => e.key | .R => rc e.key
+      match km.head? with
+      | some b => some (b :: sq, reduce dat e.data)
+      | none => none
+    | _, _ => none) (some (seq0, d0))
+
+/-- fold of the right path: `push_back(oriented.get(K-1))`, reduce the payload -/
+def rightFold {D} (T : Table D) (reduce : D → D → D) (path : List (Nat × Dir)) (seq0 : Seq) (d0 : D) : Option (Seq × D) :=
+  path.foldl (fun acc (p : Nat × Dir) =>
+    match acc, T[p.1]? with
+    | some (sq, dat), some e =>
+      let km := match p.2 with | .L => rc e.key | .R => e.key
+      match km.getLast? with
+      | some b => some (sq ++ [b], reduce dat e.data)
+      | none => none
+    | _, _ => none) (some (seq0, d0))
+
+/-- `build_node(seed_id)`: the node, the ids it consumed (left path reversed, seed, right path) and the
+    remaining availability; `none` = the "unreachable" panic -/
+def buildNodeC {D} (T : Table D) (st : Bool) (join : D → D → Bool) (reduce : D → D → D) (avail : List Nat) (seed : Nat) :
+    Option (Node D × List Nat × List Nat) :=
+  match T[seed]? with
+  | none => none
+  | some es =>
+    match walkC T st join (rm avail seed) seed .L with
+    | none => none
+    | some (lpath, lext, a2) =>
+      match leftFold T reduce lpath es.key es.data with
+      | none => none
+      | some (seqL, datL) =>
+        let leftExtend := match lpath.getLast? with
+          | none => lext
+          | some (_, .L) => lext
+          | some (_, .R) => lext.complement
+        match walkC T st join (rm a2 seed) seed .R with
+        | none => none
+        | some (rpath, rext, a3) =>
+          match rightFold T reduce rpath seqL datL with
+          | none => none
+          | some (seqR, datR) =>
+            let rightExtend := match rpath.getLast? with
+              | none => rext
+              | some (_, .L) => rext.complement
+              | some (_, .R) => rext
+            some (⟨seqR, Exts.fromSingleDirs leftExtend rightExtend, datR⟩,
+                  (lpath.map Prod.fst).reverse ++ [seed] ++ rpath.map Prod.fst, a3)
+
+/-- the loop of `compress_kmers` over ids `is` -/
+def compressLoopC {D} (T : Table D) (st : Bool) (join : D → D → Bool) (reduce : D → D → D) :
+    List Nat → List Nat → Option (List (Node D × List Nat))
+  | [], _ => some []
+  | i :: is, avail =>
+    if i ∈ avail then
+      match buildNodeC T st join reduce avail i with
+      | none => none
+      | some (nd, ids, avail') =>
+        match compressLoopC T st join reduce is avail' with
+        | none => none
+        | some rest => some ((nd, ids) :: rest)
+    else compressLoopC T st join reduce is avail
+
+/-- `compress_kmers_with_hash` over a table listed in index order; `none` = panic -/
+def compressKmersC {D} (T : Table D) (st : Bool) (join : D → D → Bool) (reduce : D → D → D) : Option (List (Node D × List Nat)) :=
+  compressLoopC T st join reduce (List.range T.length) (List.range T.length)
+
+/-- extension discovery of `compress_kmers_no_exts` (neighbours canonicalised with `min_rc` regardless of strandedness) -/
+def discoverExts (keys : List Seq) (k : Seq) : Exts :=
+  let can := fun (x : Seq) => (minRcFlip x).1
+  let l := (List.range 4).foldl (fun acc b => match (if h : b < 4 then some (⟨b, h⟩ : Base) else none) with
+    | some bb => if keys.contains (can (extendLeft k bb)) then acc ||| (1 <<< b) else acc
+    | none => acc) 0
+  let r := (List.range 4).foldl (fun acc b => match (if h : b < 4 then some (⟨b, h⟩ : Base) else none) with
+    | some bb => if keys.contains (can (extendRight k bb)) then acc ||| (1 <<< (b + 4)) else acc
+    | none => acc) 0
+  ⟨l ||| r⟩
+
+end Compress
